@@ -231,6 +231,24 @@ func (w *World) build(parent *TNode, spec BlockSpec) *TNode {
 			bl.SideBlocks = append(bl.SideBlocks, bl.SideBlocks[0])
 			bl.CumulativeDiff = pb.CumulativeDiff.Add(bl.ContributionToCumulativeDiff())
 		}
+	case "side-is-parent":
+		// the parent's own commitment as a side block (its work is already counted)
+		bl.SideBlocks = append(bl.SideBlocks, pb.Commitment())
+		bl.CumulativeDiff = pb.CumulativeDiff.Add(bl.ContributionToCumulativeDiff())
+	case "side-is-grandparent":
+		if parent.Parent != nil && parent.Parent.Block.Height > 0 {
+			bl.SideBlocks = append(bl.SideBlocks, parent.Parent.Block.Commitment())
+			bl.CumulativeDiff = pb.CumulativeDiff.Add(bl.ContributionToCumulativeDiff())
+		}
+	case "side-rereference":
+		// a side block that one of the three predecessors already references
+		for x, i := parent, 0; x != nil && i < 3; x, i = x.Parent, i+1 {
+			if len(x.Block.SideBlocks) > 0 {
+				bl.SideBlocks = append(bl.SideBlocks, x.Block.SideBlocks[0])
+				bl.CumulativeDiff = pb.CumulativeDiff.Add(bl.ContributionToCumulativeDiff())
+				break
+			}
+		}
 	case "drop-tx":
 		// block lists a transaction that is not supplied: handled by the caller through Txs
 	}
